@@ -1,14 +1,45 @@
 """C11 - Raw pixel load/store and iteration round-trip in both data orders."""
 from common import *
 
-CLAIMED = False   # set True by the owner once ./check C11 passes with real theorems
+CLAIMED = True
 LEVEL = 'proof'
-LEVEL_TEXT = 'TODO'
-LEVEL_NOTE = 'TODO'
-RULE = 'TODO'
-TRUSTED = []
-ASSUMPTIONS = []
+LEVEL_TEXT = ('Proof: 19 Coq theorems (coq/Properties/C11.v) over the Gallina model of RawData::load/store for RawU1..RawU32 in both '
+              'data orders and of RawDataIterator (coq/Model/Rawdata.v: bit_position, shift/mask expressions as written with u8 truncation, '
+              'from/to_le/be_bytes, index.checked_mul(N), saturating nth, size_hint): store-then-load returns the value; every other '
+              'pixel index loads the same value and every bit outside pixel i keeps its value (bit-level frame, with disjointness and '
+              'coverage of the per-pixel bit sets); an index at or beyond the pixel count - ANY usize, also one whose byte offset leaves '
+              'usize - gives None / Err and an unchanged buffer; load equals the documented layout as a closed form over the bytes '
+              '(MSB-first / LSB-first sub-byte pixels, little / big endian bytes); the iterator yields exactly load(0), load(1), ...; '
+              'nth(n) returns item n of the remainder and continues behind it (also when index+n saturates); size_hint equals the number '
+              'of remaining items; any mix of next()/nth(k) behaves like the same calls on the item list. The single-byte facts are '
+              'decided by vm_compute over the whole finite domain (3 widths x 2 orders x positions x 256 bytes x all values) and lifted to '
+              'buffers by list lemmas. The model is tied to the code by running the extracted model and the real functions on the same inputs.')
+LEVEL_NOTE = ('Trusted: Coq kernel, extraction (ExtrOcamlBasic), the OCaml/Rust drivers; the hand-written model is validated by differential '
+              'testing on every run, not proved equal to the Rust source. usize is 64 bit (the harness target).')
+RULE = ('correspondence: load, store (result, all bytes afterwards, load after store), the collected iterator with its initial size_hint, and '
+        'random mixes of next()/nth(k) with size_hint after every call, for 7 raw widths x 2 data orders x every buffer length 0..=L (L=6 quick, 10 '
+        'thorough) x 4 background byte patterns x every index 0..=pixels+1 plus indices on both sides of usize::MAX / bytes_per_pixel; '
+        'plus random buffers up to 40 bytes. Non-trivial = the model result is not none/empty. '
+        'search (implementation only, against an independent bit-by-bit reference of the documented layout): p_rd_store = for every value '
+        '(exhaustive up to 8 bpp, up to 16 bpp on selected cases, boundary+random above) store at every index, compare all bytes with the reference, '
+        'load back, and re-load every pixel index; p_rd_iter = item list vs load vs reference, size_hint at every position, huge nth skips at '
+        'every small position, random next/nth mixes; p_rd_far = load/store/nth at indices far beyond the buffer incl. offset-overflowing ones.')
+EXHAUSTIVE = {'quick': False, 'thorough': False}
+TRUSTED = ['modelled, not verified: u8 shifts/masks as Z.shiftl/Z.shiftr/Z.land/Z.lor with explicit 8-bit truncation; slice::get / get_mut / '
+           'copy_from_slice as list operations; Option/Result combinators (map, and_then, ok_or, inspect) by their meaning']
+ASSUMPTIONS = ['buffer elements are bytes (bytes_ok) and 8 * len <= usize::MAX (len_ok: every slice below 2 EiB), so the unbounded `index + 1` of '
+               'next() and `len * (8 / bpp)` of size_hint coincide with usize arithmetic; stored values are < 2^bits (always true for RawUx values); '
+               'the out-of-range theorems need no assumption']
 PARTIAL = []
+# Mutations tried against the suites (scratch worktree of /repo, EG_REPO=...): all reported VIOLATION with a failing input:
+#   bit_position: clamp of the in-byte position; data-order condition inverted
+#   sub-byte store without clearing the old bits (`*byte | v << k`)
+#   RawU16 load: from_be/from_le swapped;  RawU24 big-endian store takes bytes[0..3] instead of bytes[1..4]
+#   RawU24 store with stride 4 (checked_mul(4));  RawU32 load with wrapping_mul instead of checked_mul
+#   RawU8 store with a clamped index (writes the last byte instead of Err)
+#   iterator: nth with wrapping_add (first only seen by correspondence -> p_rd_iter got the huge-skip section), size_hint branches
+#   swapped (= original defect b), size_hint ignoring the index
+# Not distinguishable by any observation (benign): `>= 8` -> `> 8` in size_hint (8 bpp gives len either way).
 
 BPPS = [1, 2, 4, 8, 16, 24, 32]
 USIZE_MAX = 2 ** 64 - 1
